@@ -179,6 +179,25 @@ theorem file_equals_recorded (s : RecSt) (h : RecReach s) (hd : s.pc = .done) (d
     | cons a as => simp at hx
   rw [hf, this, hi.split d, hl]
 
+/-- attributes, over all interleavings: what the file holds, overlaid with what is still queued (pending,
+the writer's batch, the hand-off queue — each a `dict.update`), is always exactly the result of applying
+every `set_attribute` call in call order (newest value wins, nothing dropped) -/
+theorem recorder_attr_invariant (s : RecSt) (h : RecReach s) (d : Nat) : effAttrs s d = s.want d :=
+  (ainv_reach h).eff d
+
+/-- once the writer has terminated, a dataset that received data carries every attribute set on it,
+newest value per name (attributes set after the writer's last hand-off stay in the queue: `sattrs`) -/
+theorem attrs_after_close (s : RecSt) (h : RecReach s) (hd : s.pc = .done) (d : Nat) (hf : s.file d ≠ [])
+    (hq : s.sattrs d = none) : s.fattrs d = s.want d := by
+  have hi := ainv_reach h
+  have he := hi.eff d
+  have hn := hi.idle_new (by rw [hd]; decide) d
+  have hp : s.pendA d = none := by
+    cases hpd : s.pendA d with
+    | none => rfl
+    | some p => exact absurd (hi.pend_file d (by rw [hpd]; simp)) hf
+  simpa [effAttrs, hn, hp, hq, upd_empty] using he
+
 /-- after a shutdown request the writer's own (always enabled) actions reach `done` in ≤ 3 steps -/
 theorem writer_finishes (s : RecSt) (hsd : s.shutdown = true) (hpc : s.pc ≠ .done) :
     ∃ acts : List RecAct, acts.length ≤ 3 ∧ (∀ a ∈ acts, a = .swap ∨ a = .flush) ∧
